@@ -51,8 +51,8 @@ func runOSProc(n int64, lang int64, seed int64) {
 	src.script, src.pos, src.after = nil, 0, "data"
 	// sources whose output has a special shape (all zero, leading zero byte, all ones, one bit): what comes out of
 	// NewMnemonic is the encoding of exactly those bytes
-	for _, pat := range []string{"zero", "lead0", "ones", "lead0ff", "onebit"} {
-		src.pattern, src.total = pat, 0
+	for _, pat := range []string{"zero", "lead0", "ones", "lead0ff", "onebit", "zero", "zero", "ones", "ones"} {
+		src.pattern, src.total = pat, 0 // (the same constant stream several calls in a row: each is its encoding)
 		recNewMnemonic(n, lang, nil)
 	}
 	src.pattern = ""
